@@ -627,3 +627,62 @@ Proof.
   intro Hl. refine (gint3_ext _ _ _ _ _ eq_refl (kinetic_quadratic_form_is_integral l Hl)).
   intros x y z. cbv beta. unfold gdot. destruct (pd3_lcf l x y z) as [-> [-> ->]]. reflexivity.
 Qed.
+
+(* ------------------------------------------------------------------ *)
+(* 10. the hypotheses are satisfiable: an s shell (two primitives) at the origin and a p shell at
+       (1, -1, 1/2); the four functions s, p_x, p_y, p_z                                          *)
+(* ------------------------------------------------------------------ *)
+Definition ex_sh_s : shell R := mkShell R 0 0 0 0 [1; 1 / 2] [[1]; [2]] false [] [].
+Definition ex_sh_p : shell R := mkShell R 1 1 (-1) (1 / 2) [2] [[1]] false [] [].
+Definition ex_f_s : bidx := (ex_sh_s, 0%nat, 0%nat).
+Definition ex_f_p (i : nat) : bidx := (ex_sh_p, 0%nat, i).
+
+Example ex_family_valid : bvalid ex_f_s /\ bvalid (ex_f_p 0) /\ bvalid (ex_f_p 1) /\ bvalid (ex_f_p 2).
+Proof.
+  assert (Ws : wf_shell ex_sh_s) by (apply wf_shell_default; reflexivity).
+  assert (Wp : wf_shell ex_sh_p) by (apply wf_shell_default; reflexivity).
+  assert (Ps : pos_exps3 ex_sh_s) by (intros a [<-|[<-|[]]]; lra).
+  assert (Pp : pos_exps3 ex_sh_p) by (intros a [<-|[]]; lra).
+  assert (L : forall i, (i < 3)%nat -> bvalid (ex_f_p i)).
+  { intros i Hi. split; [exact Wp|]. split; [exact Pp|]. split; cbn; lia. }
+  split; [|split; [|split]]; try (apply L; lia).
+  split; [exact Ws|]. split; [exact Ps|]. split; cbn; lia.
+Qed.
+
+Definition ex_coeffs (c0 c1 c2 c3 : R) : list (R * bidx) :=
+  [(c0, ex_f_s); (c1, ex_f_p 0); (c2, ex_f_p 1); (c3, ex_f_p 2)].
+
+Lemma ex_coeffs_valid c0 c1 c2 c3 : forall p, In p (ex_coeffs c0 c1 c2 c3) -> bvalid (snd p).
+Proof.
+  destruct ex_family_valid as [V0 [V1 [V2 V3]]].
+  intros p [<-|[<-|[<-|[<-|[]]]]]; assumption.
+Qed.
+
+(* the overlap and kinetic matrices of the (s, p) pair of shells on different centres are PSD *)
+Example ex_two_shell_psd (c0 c1 c2 c3 : R) :
+  0 <= qf Sov (ex_coeffs c0 c1 c2 c3) /\ 0 <= qf Tkin (ex_coeffs c0 c1 c2 c3).
+Proof.
+  split; [apply overlap_model_psd | apply kinetic_model_psd]; apply ex_coeffs_valid.
+Qed.
+
+Example ex_two_shell_schwarz :
+  Sov ex_f_s (ex_f_p 2) * Sov ex_f_s (ex_f_p 2) <= Sov ex_f_s ex_f_s * Sov (ex_f_p 2) (ex_f_p 2).
+Proof.
+  destruct ex_family_valid as [V0 [_ [_ V3]]]. now apply overlap_model_schwarz.
+Qed.
+
+(* the hypotheses of all_bounds_S_T_proved are satisfiable: the four functions above, zero charge form
+   and zero repulsion array (both trivially Gram matrices: the zero vector) *)
+Example ex_all_bounds_hypotheses :
+  exists (v : nat -> vidx) (Vm : nat -> nat -> R) (G : nat -> nat -> nat -> nat -> R),
+  (exists (W : ipspace) (phi : nat -> vec W), forall a b, Vm a b = - 1 * ip W (phi a) (phi b)) /\
+  (exists (C : ipspace) (rho : nat -> nat -> vec C), forall a b c d, G a b c d = ip C (rho a b) (rho c d)).
+Proof.
+  destruct ex_family_valid as [V0 [V1 [V2 V3]]].
+  exists (fun i => match i with 0%nat => exist _ ex_f_s V0 | 1%nat => exist _ (ex_f_p 0) V1
+                           | 2%nat => exist _ (ex_f_p 1) V2 | _ => exist _ (ex_f_p 2) V3 end),
+         (fun _ _ => 0), (fun _ _ _ _ => 0).
+  split.
+  - exists R2, (fun _ => (0, 0)). intros. cbn. ring.
+  - exists R2, (fun _ _ => (0, 0)). intros. cbn. ring.
+Qed.
